@@ -119,6 +119,14 @@ func (o *Oblig) script(withModel bool) string {
 	return o.scriptOpt(withModel, false)
 }
 
+// scriptLite: only the length axioms of the byte-sequence theory (sound: a
+// subset of the axioms); decides most index / length / arithmetic goals fast.
+func (o *Oblig) scriptLite() string {
+	o.lite = true
+	defer func() { o.lite = false }()
+	return o.scriptOpt(true, false)
+}
+
 // scriptOpt: relaxed=true drops every quantified hypothesis and axiom; a model
 // of the relaxed query is only a candidate and must be confirmed by replay.
 func (o *Oblig) scriptOpt(withModel, relaxed bool) string {
@@ -138,10 +146,15 @@ func (o *Oblig) scriptOpt(withModel, relaxed bool) string {
 		asserts.WriteString(a)
 		asserts.WriteString(")\n")
 	}
+	var skDecls []string
 	if !o.Cover {
-		asserts.WriteString("(assert (not ")
-		asserts.WriteString(o.Goal)
-		asserts.WriteString("))\n")
+		d, a := negateGoal(o.Goal, 0)
+		skDecls = d
+		for _, x := range a {
+			asserts.WriteString("(assert ")
+			asserts.WriteString(x)
+			asserts.WriteString(")\n")
+		}
 	}
 	atext := asserts.String()
 	toks := tokenSet(atext)
@@ -171,10 +184,27 @@ func (o *Oblig) scriptOpt(withModel, relaxed bool) string {
 		body.WriteString(d)
 		body.WriteByte('\n')
 	}
+	for _, d := range skDecls {
+		body.WriteString(d)
+		body.WriteByte('\n')
+	}
 	body.WriteString(atext)
 	text := body.String()
 	b.WriteString(prelude)
 	ax := r.W.axiomText(text + lits.String())
+	if o.lite {
+		var keep []string
+		for _, l := range strings.Split(ax, "\n") {
+			if strings.HasPrefix(l, "(assert (forall") && strings.Contains(l, "BSeq") || strings.HasPrefix(l, "(assert (forall ((a (Array Int Int))") || strings.HasPrefix(l, "(assert (forall ((o Int) (n Int))") {
+				// keep only axioms whose conclusion is about lengths
+				if !liteAxiom(l) {
+					continue
+				}
+			}
+			keep = append(keep, l)
+		}
+		ax = strings.Join(keep, "\n") + "\n"
+	}
 	if relaxed {
 		var keep []string
 		for _, l := range strings.Split(ax, "\n") {
@@ -463,3 +493,83 @@ func (w *World) prepareSpecs() error {
 }
 
 var _ = types.Typ
+
+func liteAxiom(l string) bool {
+	// length facts: the pattern is a constructor and the body an (in)equality on blen
+	for _, p := range []string{
+		":pattern ((blen s))", ":pattern ((bcat a b))", ":pattern ((seqOf a o n))", ":pattern ((bzeros n))",
+	} {
+		if strings.Contains(l, p) && strings.Contains(l, "blen") {
+			return true
+		}
+	}
+	if strings.Contains(l, "(= (blen (bsub s i j)) (- j i))") {
+		return true
+	}
+	return false
+}
+
+// negateGoal returns declarations and assertions equivalent to (not goal),
+// with universally quantified goals skolemised by hand and hypotheses of
+// implications asserted separately (the solvers do this poorly when the
+// quantifier is nested under other connectives).
+func negateGoal(g string, depth int) (decls, asserts []string) {
+	if strings.HasPrefix(g, "(forall (") && depth < 8 {
+		parts := splitSexp(g[8 : len(g)-1])
+		if len(parts) == 2 {
+			body := parts[1]
+			if strings.HasPrefix(body, "(! ") {
+				inner := body[3 : len(body)-1]
+				if k := strings.Index(inner, " :pattern "); k > 0 {
+					inner = inner[:k]
+				}
+				if k := strings.Index(inner, " :weight "); k > 0 {
+					inner = inner[:k]
+				}
+				body = inner
+			}
+			for _, vd := range splitSexp(parts[0][1 : len(parts[0])-1]) {
+				vf := splitSexp(vd[1 : len(vd)-1])
+				if len(vf) != 2 {
+					return nil, []string{sNot(g)}
+				}
+				sk := fmt.Sprintf("sk!%d!%s", depth, sanitize(vf[0]))
+				decls = append(decls, fmt.Sprintf("(declare-const %s %s)", sk, vf[1]))
+				body = replaceToken(body, vf[0], sk)
+			}
+			d2, a2 := negateGoal(body, depth+1)
+			return append(decls, d2...), a2
+		}
+	}
+	if strings.HasPrefix(g, "(=> ") {
+		parts := splitSexp(g[4 : len(g)-1])
+		if len(parts) == 2 {
+			d2, a2 := negateGoal(parts[1], depth+1)
+			return d2, append([]string{parts[0]}, a2...)
+		}
+	}
+	return nil, []string{sNot(g)}
+}
+
+func replaceToken(text, tok, repl string) string {
+	var b strings.Builder
+	i := 0
+	for i < len(text) {
+		j := strings.Index(text[i:], tok)
+		if j < 0 {
+			b.WriteString(text[i:])
+			break
+		}
+		j += i
+		before := j == 0 || strings.ContainsRune("( )", rune(text[j-1]))
+		after := j+len(tok) >= len(text) || strings.ContainsRune("( )", rune(text[j+len(tok)]))
+		b.WriteString(text[i:j])
+		if before && after {
+			b.WriteString(repl)
+		} else {
+			b.WriteString(tok)
+		}
+		i = j + len(tok)
+	}
+	return b.String()
+}
